@@ -18,7 +18,7 @@ ASSUMPTIONS = [
     "stray files that do not have the <2>/<rest> layout are outside the property",
 ]
 MONITORS = "independent before/after os.walk listing of the store compared with a set-difference model; return value; byte snapshot of survivors"
-REQUIRED_COUNTERS = ["gc_calls", "expanding_calls_with_used_dir", "dry_calls", "readonly_calls", "real_removals", "foreign_algo_ids_in_used"]
+REQUIRED_COUNTERS = ["used_as/generator", "used_as/iterator", "gc_calls", "expanding_calls_with_used_dir", "dry_calls", "readonly_calls", "real_removals", "foreign_algo_ids_in_used"]
 
 
 def _put(root, oid, data, mode):
@@ -155,8 +155,13 @@ def run_shard(ctx):
             res.sample(cfg)
 
             jobs = rng.choice([None, 1, 4])
+            form = rng.choice(["list", "set", "iterator", "generator", "tuple"])
+            res.count(f"used_as/{form}")
+            cfg["used_as"] = form
+            used_arg = {"list": lambda: list(used), "set": lambda: set(used), "iterator": lambda: iter(list(used)),
+                        "generator": lambda: (h for h in used), "tuple": lambda: tuple(used)}[form]()
             try:
-                n = gc(odb, used, jobs=jobs, cache_odb=cache_odb, shallow=shallow, dry=dry)
+                n = gc(odb, used_arg, jobs=jobs, cache_odb=cache_odb, shallow=shallow, dry=dry)
                 exc = None
             except ObjectDBPermissionError as e:
                 exc = e
